@@ -59,7 +59,13 @@ const SPEC4: [&str; 4] = ["LittleEndian", "BigEndian", "AnyEndian", "NativeEndia
 fn open_result(spec: u8, parser: u8, data: &[u8], pos0: u64) -> Result<(), ParseError> {
     with_endian!(spec4(spec), |e| match parser {
         0 => open_as(e, data).map(|_| ()),
-        1 => open_stream_as(e, verif_model::io::Reader::new(data.to_vec()).at_position(pos0)).map(|_| ()),
+        1 => {
+            // a legal reader: short reads of 1, 7 or 15/3 bytes and/or ErrorKind::Interrupted every third read
+            let k = data.len() + pos0 as usize;
+            let chunks: Vec<usize> = [vec![], vec![1], vec![7], vec![15, 3]][k % 4].clone();
+            let intr = if k % 3 == 0 { 3 } else { 0 };
+            open_stream_as(e, verif_model::io::Reader::with(data.to_vec(), chunks, intr, vec![]).at_position(pos0)).map(|_| ())
+        }
         _ => {
             fn pi<E: EndianParse>(_e: E, d: &[u8]) -> Result<(), ParseError> {
                 elf::file::parse_ident::<E>(d).map(|_| ())
